@@ -102,12 +102,6 @@ theorem keeps_getNumC (a : Nat) : Keeps a getNumC := by
 
 theorem keeps_scanC (a : Nat) (stop : Int → Bool) : Keeps a (scanC stop) := ⟨fun _ _ => ⟨rfl, rfl, rfl⟩⟩
 
-theorem keeps_addInt (a : Nat) (x y : Int) : Keeps a (addInt x y) := by
-  unfold addInt
-  split
-  · exact keeps_pure a _
-  · exact keeps_fail a _
-
 theorem frame_setTrack (a : Nat) (s : MmlState) (t : Track) (h : s.trackId ≠ a) : FrameRel a s (setTrack s t) :=
   ⟨rfl, lookup_insertTrack_ne a s.trackId t _ (Ne.symm h), rfl⟩
 
@@ -133,7 +127,7 @@ theorem keeps_ite {α} (a : Nat) (c : Prop) [Decidable c] (m1 m2 : P α) (h1 : K
 macro "keeps_step" : tactic => `(tactic| first
   | exact keeps_pure _ _ | exact keeps_fail _ _ | exact keeps_parseError _ _ | exact keeps_getS _ | exact keeps_tellC _
   | exact keeps_track _ | exact keeps_getC _ | exact keeps_getTokenC _ | exact keeps_seekC _ _ | exact keeps_parseWarning _ _
-  | exact keeps_ungetC _ _ | exact keeps_getNumC _ | exact keeps_scanC _ _ | exact keeps_addInt _ _ _ | exact keeps_modifyTrack _ _
+  | exact keeps_ungetC _ _ | exact keeps_getNumC _ | exact keeps_scanC _ _ | exact keeps_modifyTrack _ _
   | exact keeps_trackOp _ _
   | (apply keeps_modifyS; intro _; exact ⟨rfl, rfl, rfl⟩)
   | assumption
